@@ -101,10 +101,6 @@ def read_graph(graph_raw) -> nx.DiGraph:
     # Store (possibly empty) list of subpaths (each a list of edge tuples)
     G.graph["constraints"] = constraint_subpaths
 
-    if n == 0:
-        utils.logger.info(f"Graph {graph_id} has 0 vertices.")
-        return G
-
     # Parse edges: skip blanks and comment/header lines defensively
     for line in graph_raw[idx:]:
         if not line.strip() or line.lstrip().startswith('#'):
@@ -127,6 +123,10 @@ def read_graph(graph_raw) -> nx.DiGraph:
             if not G.has_edge(u, v):
                 utils.logger.error(f"{__name__}: Constraint edge ({u}, {v}) not found in graph {graph_id} edges.")
                 raise ValueError(f"Constraint edge ({u}, {v}) not found in graph edges.")
+
+    if G.number_of_edges() == 0:
+        utils.logger.info(f"Graph {graph_id} has no edges.")
+        return G
 
     G.graph["n"] = G.number_of_nodes()
     G.graph["m"] = G.number_of_edges()
